@@ -153,6 +153,7 @@ def run(chk, repo, tier):
         chk.violation(X1, m.rel, 'CovariateEffect.categorical', 'reference category value', 'the most common category must '
                       'have effect 1', line=cat.node.lineno, witness='the reference category changes the parameter')
     run_more(chk, repo)
+    run_x5(chk, repo)
 
 
 # names that are fixed on purpose: later transformations look these statements up by name (read and confirmed)
@@ -252,3 +253,33 @@ def run_more(chk, repo):
                               f'(other DV) re-defines it and the earlier definition shadows or is shadowed', line=c.lineno,
                               witness='two DVs with different predictions, proportional error with zero protection set on '
                                       'dv=1 and then dv=2: the second epsilon is scaled by the first prediction')
+
+
+def run_x5(chk, repo):
+    from sa import lints
+    X5 = chk.rule('X5', 'numbered symbols defined by the eta transformations depend on what the model already defines', floor=1)
+    pm = repo.module('pharmpy.modeling.parameter_variability')
+    f = pm.functions.get('_create_new_etas')
+    if f is None:
+        raise AnalysisError('_create_new_etas not found')
+    deps = lints.dependence(f.node.body)
+    params = set(f.all_params)
+    n = 0
+    for a in ast.walk(f.node):
+        # dictionary stores whose value is the NEW symbol (upper-case stem + number)
+        if isinstance(a, ast.Assign) and isinstance(a.targets[0], ast.Subscript) and isinstance(a.value, ast.Call) \
+                and (dotted(a.value.func) or '').endswith('Symbol') and a.value.args \
+                and isinstance(a.value.args[0], ast.JoinedStr) and 'upper' in unparse(a.value.args[0]):
+            n += 1
+            names_ = {x.id for x in ast.walk(a.value.args[0]) if isinstance(x, ast.Name)}
+            cl = lints.closure(deps, names_)
+            ok = 'model' in cl and 'model' in params
+            chk.instance(X5, f'_create_new_etas: `{unparse(a.value)[:60]}` depends on the model: {ok}')
+            if not ok:
+                chk.violation(X5, pm.rel, f.name, unparse(a)[:100],
+                              'the new symbol is numbered from 1 in every call: a second transformation of another eta re-defines '
+                              'the symbol of the first', line=a.lineno,
+                              witness='transform_etas_boxcox(model, ["ETA_CL"]) then (.., ["ETA_VC"]): both use ETAB1, VC follows '
+                                      'the transformation of ETA_CL')
+    if n == 0:
+        raise AnalysisError('X5: construction of the transformed eta symbols not found')
